@@ -29,10 +29,10 @@ def run(c):
         t1 = c.rundir / "directed.ndjson"
         c.drive(drv, ["net", "directed", t1])
         t2 = c.rundir / "rand.ndjson"
-        c.drive(drv, ["net", "random", c.seed, c.pick(100, 4000), t2])
+        c.drive(drv, ["net", "random", c.seed, c.pick(100, 2000), t2])
         t3 = c.rundir / "exh.ndjson"
         # variants: 1 = nodes 1,2 subscribed beforehand, +2 = node 2 missing from node 0's partial view, +4 = reordering links, +8 = subscribe_local_messages
-        c.drive(drv, ["net", "exhaustive", c.pick(3, 4), c.pick("3", "1,3,5,7,9,13,15,0,6"), t3])
+        c.drive(drv, ["net", "exhaustive", c.pick(3, 4), c.pick("3", "3,5,15"), t3])
         traces = [t1, t2, t3]
     distinct = set()
     for t in traces:
@@ -49,7 +49,7 @@ def run(c):
     c.distinct_nontrivial = len(distinct)
     return c.finish(
         "model_checking",
-        rule="schedule = (nodes 2-5, topics 1-3, subscribe_local_messages per node, fifo or reordering links, op sequence over conn/disc/view/unview/sub/unsub/pub/inj/dlv/flush); 18 directed scenarios, seeded random schedules of 8-70 ops generated online (deliveries only on busy links), and every enabled op sequence of length 3 (thorough: 4) over subscribe/unsubscribe/publish(_any)/deliver on a three-node triangle in 1 (thorough: 9) start configurations; distinct = distinct schedules with a publish and a delivery",
+        rule="schedule = (nodes 2-5, topics 1-3, subscribe_local_messages per node, fifo or reordering links, op sequence over conn/disc/view/unview/sub/unsub/pub/inj/dlv/flush); 18 directed scenarios, seeded random schedules of 8-70 ops generated online (deliveries only on busy links), and every enabled op sequence of length 3 (thorough: 4) over subscribe/unsubscribe/publish(_any)/deliver on a three-node triangle in 1 (thorough: 3) start configurations; distinct = distinct schedules with a publish and a delivery",
         assumptions=["the driver plays Swarm and network: one RPC per NotifyHandler, RPCs of a closed link are lost",
                      "message identity = whole message; the received-cache (65536 entries) is never full"],
     )
